@@ -644,4 +644,137 @@ example : mpz_set_d 0xBFF8000000000000 = some ⟨-1, [1]⟩ ∧ mpz_set_d 0x43F0
     mpz_set_d 0x000FFFFFFFFFFFFF = some ⟨0, []⟩ ∧ mpz_set_d 0x7FF8000000000000 = none ∧ mpz_set_d 0xFFF0000000000000 = none ∧
     mpz_set_d 0x4340000000000001 = some ⟨1, [2 ^ 53 + 2]⟩ := by decide
 
+/-! ## 6. Comparing an integer with a double -/
+
+/-- cmp_d_spec.  `dblInt b` = d·2^1074 is the exact value of the finite double (scaled to an integer).
+    * NaN: both functions raise the invalid-operation exception (`none`);
+    * ±∞: mpz_cmp_d returns -1 for +∞ and +1 for -∞ whatever z is; mpz_cmpabs_d returns -1;
+    * finite d (zeros, denormals, normals): the sign of mpz_cmp_d is the sign of the exact difference z - d,
+      and the sign of mpz_cmpabs_d is the sign of |z| - |d|.  So both agree with the order of `cmp_total_order`
+      extended to the doubles' exact values. -/
+theorem cmp_d_spec (z : Z) (hz : z.wf) (b : Nat) :
+    (isNaN b = true → mpz_cmp_d z b = none ∧ mpz_cmpabs_d z b = none) ∧
+    (isInf b = true → mpz_cmp_d z b = some (if sigOf b = 1 then 1 else -1) ∧ mpz_cmpabs_d z b = some (-1)) ∧
+    (expOf b ≠ 2047 →
+      (∃ r, mpz_cmp_d z b = some r ∧ sgn r = sgn (z.toInt * 2 ^ 1074 - dblInt b)) ∧
+      (∃ r, mpz_cmpabs_d z b = some r ∧ sgn r = sgn ((z.toInt.natAbs : Int) * 2 ^ 1074 - dblNum b))) := by
+  refine ⟨fun h => ?_, fun h => ?_, fun hf => ?_⟩
+  · unfold mpz_cmp_d mpz_cmpabs_d; rw [h]; simp
+  · have hn : isNaN b = false := by
+      unfold isNaN; unfold isInf at h; simp at h; simp [h.1, h.2]
+    have hzf : isZero b = false := by
+      unfold isInf expOf at h; unfold isZero; simp at h ⊢; omega
+    have hneg : isNeg b = decide (sigOf b = 1) := by unfold isNeg; rw [hzf]; simp
+    unfold mpz_cmp_d mpz_cmpabs_d; rw [hn, h, hneg]
+    by_cases c : sigOf b = 1 <;> simp [c]
+  · obtain ⟨a1, a2, a3, a4, _⟩ := absBits_fields b
+    have hn : isNaN b = false := by unfold isNaN; simp [hf]
+    have hi : isInf b = false := by unfold isInf; simp [hf]
+    have habs : absBits b < 2 ^ 63 := by unfold absBits; omega
+    obtain ⟨s1, s2, s3⟩ := Z.toInt_sign hz
+    obtain ⟨w0, w1, _⟩ := Z.wf_bounds hz
+    have hna := Z.natAbs_toInt z
+    have p1074 : (0 : Int) < 2 ^ 1074 := by positivity
+    have tail : ∀ ret : Int, z.size ≠ 0 → isZero b = false →
+        cmpTailD z.d (z.size.natAbs : Int) (absBits b) ret = ret * sgn ((val z.d : Int) * 2 ^ 1074 - dblNum b) := by
+      intro ret hs hzb
+      have hne : z.d ≠ [] := by intro e; have := hz.1; rw [e] at this; simp at this; omega
+      rw [← a4]
+      exact cmpTailD_spec z.d hz.2.1 hz.2.2 hne _ (by rw [hz.1]) (absBits b) habs (by rw [a3]; exact hzb) (by rw [a1]; exact hf) ret
+    generalize (2 : Int) ^ 1074 = S at *
+    constructor
+    · -- mpz_cmp_d
+      unfold mpz_cmp_d
+      rw [hn, hi]
+      simp only [Bool.false_eq_true, if_false]
+      by_cases hzb : isZero b = true
+      · rw [if_pos hzb]
+        refine ⟨_, rfl, ?_⟩
+        have : dblInt b = 0 := by unfold dblInt; rw [dblNum_zero hzb]; simp
+        rw [this, sub_zero]
+        rcases lt_trichotomy z.size 0 with h | h | h
+        · exact sgn_eq_neg h (mul_neg_of_neg_of_pos (s1 h) p1074)
+        · rw [h, s2 h]; simp
+        · exact sgn_eq_pos h (mul_pos (s3 h) p1074)
+      · have hzb' : isZero b = false := by simpa using hzb
+        have dpos := dblNum_pos hzb'
+        have hneg : (isNeg b = true) ↔ sigOf b = 1 := by unfold isNeg; rw [hzb']; simp
+        rw [if_neg hzb]
+        by_cases h0 : z.size = 0
+        · rw [if_pos h0]
+          refine ⟨_, rfl, ?_⟩
+          rw [s2 h0, zero_mul, zero_sub]
+          unfold dblInt
+          by_cases c : sigOf b = 1
+          · rw [if_pos (hneg.mpr c), if_pos c]; exact sgn_eq_pos (by decide) (by omega)
+          · rw [if_neg (fun h => c (hneg.mp h)), if_neg c]; exact sgn_eq_neg (by decide) (by omega)
+        · rw [if_neg h0]
+          have vpos : 0 < val z.d := lt_of_lt_of_le (Bpow_pos _) (w1 h0)
+          by_cases c1 : z.size ≥ 0 ∧ isNeg b = true
+          · rw [if_pos c1]
+            refine ⟨_, rfl, ?_⟩
+            have := s3 (by omega)
+            have hd : dblInt b < 0 := by unfold dblInt; rw [if_pos (hneg.mp c1.2)]; omega
+            have := mul_pos this p1074
+            exact sgn_eq_pos (by decide) (by linarith)
+          · rw [if_neg c1]
+            by_cases c2 : z.size < 0 ∧ (!isNeg b) = true
+            · rw [if_pos c2]
+              refine ⟨_, rfl, ?_⟩
+              have := s1 c2.1
+              have nn : ¬ sigOf b = 1 := fun h => by have := hneg.mpr h; simp [this] at c2
+              have hd : 0 < dblInt b := by unfold dblInt; rw [if_neg nn]; omega
+              have := mul_neg_of_neg_of_pos this p1074
+              exact sgn_eq_neg (by decide) (by linarith)
+            · rw [if_neg c2]
+              refine ⟨_, rfl, ?_⟩
+              rw [tail _ h0 hzb']
+              by_cases hp : z.size ≥ 0
+              · have nn : ¬ sigOf b = 1 := fun h => c1 ⟨hp, hneg.mpr h⟩
+                have ti : z.toInt = (val z.d : Int) := by unfold Z.toInt; rw [if_neg (by omega)]
+                rw [if_pos hp, one_mul, sgn_sgn, ti]
+                unfold dblInt; rw [if_neg nn]
+              · have nn : sigOf b = 1 := by
+                  by_contra h
+                  have hb : isNeg b = false := by
+                    cases hq : isNeg b with
+                    | false => rfl
+                    | true => exact absurd (hneg.mp hq) h
+                  exact c2 ⟨by omega, by rw [hb]; rfl⟩
+                have ti : z.toInt = -(val z.d : Int) := by unfold Z.toInt; rw [if_pos (by omega)]
+                rw [if_neg hp, ti]
+                unfold dblInt; rw [if_pos nn]
+                have : -(val z.d : Int) * S - -(dblNum b : Int) = -((val z.d : Int) * S - dblNum b) := by ring
+                rw [this, sgn_neg_eq, neg_one_mul, sgn_neg_eq, sgn_sgn]
+    · -- mpz_cmpabs_d
+      unfold mpz_cmpabs_d
+      rw [hn, hi, hna]
+      simp only [Bool.false_eq_true, if_false]
+      by_cases hzb : isZero b = true
+      · rw [if_pos hzb, dblNum_zero hzb]
+        refine ⟨_, rfl, ?_⟩
+        simp only [Nat.cast_zero, sub_zero]
+        by_cases h0 : z.size = 0
+        · rw [if_neg (by simpa using h0), w0 h0]; simp
+        · rw [if_pos h0]
+          have vpos : 0 < val z.d := lt_of_lt_of_le (Bpow_pos _) (w1 h0)
+          exact sgn_eq_pos (by decide) (mul_pos (by exact_mod_cast vpos) p1074)
+      · have hzb' : isZero b = false := by simpa using hzb
+        have dpos := dblNum_pos hzb'
+        rw [if_neg hzb]
+        by_cases h0 : z.size = 0
+        · rw [if_pos h0, w0 h0]
+          refine ⟨_, rfl, ?_⟩
+          exact sgn_eq_neg (by decide) (by simp; omega)
+        · rw [if_neg h0]
+          refine ⟨_, rfl, ?_⟩
+          rw [tail _ h0 hzb', one_mul, sgn_sgn]
+
+-- non-vacuity: 2^53+1 against the double 2^53 (equal after truncation, but the comparison is exact: greater);
+-- a negative two-limb value against -2^64; a fraction; infinities; NaN
+example : mpz_cmp_d ⟨1, [2 ^ 53 + 1]⟩ 0x4340000000000000 = some 1 ∧ mpz_cmp_d ⟨-2, [0, 1]⟩ 0xC3F0000000000000 = some 0 ∧
+    mpz_cmp_d ⟨1, [1]⟩ 0x3FF8000000000000 = some (-1) ∧ mpz_cmpabs_d ⟨-1, [2]⟩ 0x3FF8000000000000 = some 1 ∧
+    mpz_cmp_d ⟨1, [1]⟩ 0xFFF0000000000000 = some 1 ∧ mpz_cmp_d ⟨1, [1]⟩ 0x7FF8000000000000 = none ∧
+    dblInt 0x8000000000000003 = -3 := by decide
+
 end Mpir.Conv
